@@ -11,6 +11,8 @@ import Gedcom.Props.C05Float
 import Gedcom.Model.Float64Jaro
 import Gedcom.Lemmas.JaroSymm
 import Gedcom.Lemmas.ListSymm
+import Gedcom.Model.SimilaritySrcF
+import Gedcom.Generated.SimilaritySrc
 import Mathlib.Tactic.IntervalCases
 namespace Gedcom.C12F
 open Gedcom Gedcom.F64 Gedcom.C05
@@ -797,5 +799,53 @@ theorem stringSimilarityF_self (a : Str) (boost : Dbl) (p : Nat) (h : Gedcom.cle
   simp only
   rw [hx.2]
   exact jaroWinklerF_self _ boost p hx.1 hp hla
+
+/-! ### The binary64 model is the regenerated source, rounding by rounding -/
+
+open Gedcom.SimSrc in
+/-- `1.0 - x` as the source interpretation computes it is `oneMinus x` for `x ≤ 1` -/
+theorem absdiff_one (x : Dbl) (h : x.mant ≤ 2 ^ x.frac) : absdiff (ofNat 1) x = oneMinus x := by
+  unfold absdiff oneMinus ofNat
+  simp [h]
+
+open Gedcom.SimSrc in
+/-- **`JaroWinkler`'s boost step in the model is the regenerated source expression, evaluated in
+    float64 in the source's order**: the threshold guard and
+    `j + 0.1*prefixMatch*(1.0-j)` as read from jaro.go by go/ast on this run. -/
+theorem jwValueF_is_the_source (j boost : Dbl) (pm : Nat) (hj : leNat j 1) :
+    jwValueF j boost pm =
+      Generated.srcJaroWinkler.evalF (fun v => match v with
+        | .j => j | .boost => boost | .pm => ofNat pm | _ => ⟨0, 0⟩) := by
+  unfold leNat at hj
+  simp only [Nat.one_mul] at hj
+  unfold jwValueF Fn.evalF Generated.srcJaroWinkler
+  simp only [List.find?, Guard.firesF, Cmp.holdsF, AExp.evalF]
+  by_cases h : F64.le j boost
+  · simp [h]; rfl
+  · simp only [h, decide_false, litF]
+    simp only [show ¬ (10 = 1) by decide, if_false, if_true]
+    rw [absdiff_one j hj]
+    rfl
+
+open Gedcom.SimSrc in
+/-- **`DateRange.Similarity` in the model is the regenerated source expression, evaluated in
+    float64 in the source's order**: `math.Pow((left-right)/maxYears, 2)`, the `> 1` guard
+    returning 0, and `1 - similarity`, as read from date_range.go on this run. -/
+theorem dateSimilarity_is_the_source (l r m : Dbl) :
+    dateSimilarity l r m =
+      Generated.srcDateRange.evalF (fun v => match v with
+        | .left => l | .right => r | .maxYears => m | _ => ⟨0, 0⟩) := by
+  unfold dateSimilarity simOfDist Fn.evalF Generated.srcDateRange
+  simp only [List.find?, Guard.firesF, Cmp.holdsF, AExp.evalF, litF, if_true]
+  generalize mul (div (absdiff l r) m) (div (absdiff l r) m) = p
+  have e1 : ofNat 1 = one := rfl
+  rw [e1]
+  by_cases h : F64.lt one p
+  · simp [h]; rfl
+  · simp only [h, decide_false]
+    have hp : p.mant ≤ 2 ^ p.frac := by
+      unfold F64.lt one at h; simpa using h
+    rw [← e1, absdiff_one p hp]
+    simp
 
 end Gedcom.C12F
